@@ -71,7 +71,7 @@ PROPS["C14"] = {
 }
 
 POOL_FNS = ["StringRef::number", "StringRef::index", "StringPool::get", "StringPool::refcount",
-            "StringPool::decref", "ValueRef::create", "ValueRef::remove"]
+            "StringPool::decref", "ValueRef::create", "ValueRef::remove", "ValueRef::to_value"]
 SUMMARY_FNS = ["PropertySet::codepage", "PropertySet::set_codepage", "PropertySet::get", "PropertySet::set",
                "PropertySet::remove", "CodePage::from_id", "CodePage::id", "lemma_cp_roundtrip", "lemma_i16_u16",
                "SummaryInfo::codepage", "SummaryInfo::set_codepage",
